@@ -14,6 +14,14 @@ Tie to the code on every run:
   history           the document under test is built from RTFBody / RTFColumnHeader objects that were used by
                     an earlier document with another column count (quantifier: "configuration objects that were
                     used by an earlier document").
+  sharing           one RTFBody object listed for several sections of ONE document (`rtf_body=[body] * n`; sections
+                    with fewer / more / as many columns and other key positions when the body has no or a one-element
+                    col_rel_width, sections of the same shape when it has one width per column) and one list of
+                    RTFColumnHeader objects listed for several sections (`[[h], [h]]`), alone and together with an
+                    earlier document using the same objects.  The widths every section of the real document holds
+                    after construction, and the caller's objects afterwards, are compared with the model
+                    (`constructSections`, driver op `c08_construct_sections`; theorems C08_sections_shared,
+                    C08_section_widths_own).
 Float caveat: rtflite computes in IEEE doubles, the model in exact rationals.  Boundaries whose exact value
 lies within 2^-30 twip of a rounding boundary are not compared strictly (either neighbour accepted) unless
 the float computation is verifiably exact; they are counted in the evidence (`float_boundary_*`).
@@ -31,7 +39,9 @@ EPS_S = f"{EPS.numerator}/{EPS.denominator}"
 
 RULE = ("unit: random width vectors (1..12 columns, ints / dyadic / decimal / arbitrary floats in [0.2,10], "
         "col_width in [2,12]); docs: tagged tables over header mode x page_by/subline_by removal x footnote/source "
-        "x orientation/col_width x multi-section x reused configuration objects; non-trivial = a document with "
+        "x orientation/col_width x multi-section x reused configuration objects (by an earlier document; by several "
+        "sections of one document: body objects over sections with fewer/more/equal column counts, header objects); "
+        "non-trivial = a document with "
         ">= 2 columns displayed in some section and unequal relative widths or a removed column or several row kinds; "
         "distinct by (column counts, masks, header modes, width vectors, table width)")
 TRUSTED = [
@@ -47,9 +57,11 @@ MANIFEST = dict(
          "cumulative width is exactly W, every boundary is within 1/2 twip of its proportional position, boundaries "
          "are monotone and positive, every row kind of a well-formed section ends at twip(W), headers with inherited "
          "widths have the data rows' boundary vector after column removal, widths do not depend on earlier documents "
-         "built with the same configuration objects. Tied to the code on every run by unit correspondence on "
+         "built with the same configuration objects, nor on the other sections of the document that list the same body "
+         "object (each section's widths are resolved from its object and its own column count). Tied to the code on every run by unit correspondence on "
          "_col_widths and by whole documents whose observed \\cellx vectors are judged by the Lean-defined oracle "
-         "checkRows and compared with the model's rows.",
+         "checkRows and compared with the model's rows, and by comparing the widths "
+         "each section holds after construction with the model's.",
     note="IEEE-754 arithmetic inside _col_widths is modelled by exact rationals over the exact float inputs; "
          "boundaries within 2^-30 twip of a rounding boundary are excluded from strict comparison and counted. "
          "pydantic, polars are parameters. The header-alignment clause holds only with "
@@ -215,6 +227,37 @@ def run_unit(res, rng, tier):
 KEYS = ["KA", "KB", "KC", "KD"]
 
 
+def gen_headers(rng, sec, ndisp):
+    """column header configuration of one section with `ndisp` displayed columns → (hmode, headers)"""
+    hmode = rng.choice(["default", "default", "explicit_nowidth", "explicit_nowidth", "explicit_own", "multirow",
+                        "multirow_auto", "none"])
+    if hmode == "default":
+        headers = "default"
+    elif hmode == "none":
+        headers = []
+    elif hmode == "explicit_nowidth":
+        headers = [dict(text=[f"S{sec}H0x{j}" for j in range(ndisp)])]
+    elif hmode == "explicit_own":
+        nc = rng.randint(1, ndisp)
+        headers = [dict(text=[f"S{sec}H0x{j}" for j in range(nc)], col_rel_width=gen_widths(rng, nc))]
+    else:
+        nc = rng.randint(1, max(1, min(4, ndisp)))
+        top = dict(text=[f"S{sec}H0x{j}" for j in range(nc)], col_rel_width=gen_widths(rng, nc))
+        if hmode == "multirow":
+            second = dict(text=[f"S{sec}H1x{j}" for j in range(ndisp)])
+        else:
+            second = dict()  # RTFColumnHeader(): text filled from the column names, widths inherited
+        headers = [top, second]
+        if rng.random() < 0.3:
+            nc3 = rng.randint(1, ndisp)
+            headers.insert(1, dict(text=[f"S{sec}H9x{j}" for j in range(nc3)], col_rel_width=gen_widths(rng, nc3)))
+            # keep header indices meaningful: rename by position
+            for hi, h in enumerate(headers):
+                if h.get("text"):
+                    h["text"] = [f"S{sec}H{hi}x{j}" for j in range(len(h["text"]))]
+    return hmode, headers
+
+
 def gen_section(rng, sec, tier, allow_removal=True, long=False):
     """one table section: frame with tagged cells + body/header configuration"""
     ncol = rng.choice([1, 2, 2, 3, 3, 4, 4, 5, 6, 7, 8, 10, 12])
@@ -281,33 +324,7 @@ def gen_section(rng, sec, tier, allow_removal=True, long=False):
     else:
         wmode = "displayed" if ndisp != ncol and ndisp > 1 else "full"
         body["col_rel_width"] = gen_widths(rng, ndisp if wmode == "displayed" else ncol)
-    # headers
-    hmode = rng.choice(["default", "default", "explicit_nowidth", "explicit_nowidth", "explicit_own", "multirow",
-                        "multirow_auto", "none"])
-    if hmode == "default":
-        headers = "default"
-    elif hmode == "none":
-        headers = []
-    elif hmode == "explicit_nowidth":
-        headers = [dict(text=[f"S{sec}H0x{j}" for j in range(ndisp)])]
-    elif hmode == "explicit_own":
-        nc = rng.randint(1, ndisp)
-        headers = [dict(text=[f"S{sec}H0x{j}" for j in range(nc)], col_rel_width=gen_widths(rng, nc))]
-    else:
-        nc = rng.randint(1, max(1, min(4, ndisp)))
-        top = dict(text=[f"S{sec}H0x{j}" for j in range(nc)], col_rel_width=gen_widths(rng, nc))
-        if hmode == "multirow":
-            second = dict(text=[f"S{sec}H1x{j}" for j in range(ndisp)])
-        else:
-            second = dict()  # RTFColumnHeader(): text filled from the column names, widths inherited
-        headers = [top, second]
-        if rng.random() < 0.3:
-            nc3 = rng.randint(1, ndisp)
-            headers.insert(1, dict(text=[f"S{sec}H9x{j}" for j in range(nc3)], col_rel_width=gen_widths(rng, nc3)))
-            # keep header indices meaningful: rename by position
-            for hi, h in enumerate(headers):
-                if h.get("text"):
-                    h["text"] = [f"S{sec}H{hi}x{j}" for j in range(len(h["text"]))]
+    hmode, headers = gen_headers(rng, sec, ndisp)
     return dict(cols=cols, rows=rows, body=body, headers=headers, keep=keep, mode=mode, wmode=wmode, hmode=hmode)
 
 
@@ -353,6 +370,126 @@ def gen_doc(rng, tier):
                 header_format=header_format, history=history)
 
 
+# ------------------------------------------------------------------ observation level: SHARED configuration objects
+#
+# `rtf_body=[body] * n`, `rtf_column_header=[[h], [h]]`: one caller-owned object listed for several sections of one
+# document (and, with `history`, used by an earlier document as well).  A section says so with
+#   body_of    = index of the (earlier) section whose RTFBody OBJECT it lists   (its `body` dict is that section's)
+#   headers_of = index of the (earlier) section whose header OBJECTS (the very list) it lists (nested format only)
+
+def removed_names(body):
+    """columns the body takes out of the table (subline_by always; page_by unless shown as a column)"""
+    removed = set(body.get("subline_by") or [])
+    pb = body.get("page_by") or []
+    if pb and not (body.get("new_page") is True and body.get("pageby_row", "column") == "column"):
+        removed |= set(pb)
+    return removed
+
+
+def body_root(sections, si):
+    while sections[si].get("body_of") is not None:
+        si = sections[si]["body_of"]
+    return si
+
+
+def headers_root(sections, si):
+    while sections[si].get("headers_of") is not None:
+        si = sections[si]["headers_of"]
+    return si
+
+
+def body_cfg(case, si):
+    """the RTFBody keyword arguments of the object section si lists"""
+    return case["sections"][body_root(case["sections"], si)]["body"]
+
+
+def headers_fit(headers, ndisp):
+    """can this header list label a section with `ndisp` displayed columns?  A row with text and without widths of its
+    own inherits one width per displayed column, so it needs one label per displayed column; rows with own widths and
+    rows without text (filled from the column names) fit every section"""
+    if headers == "default":
+        return True
+    return all(not (h.get("text") and h.get("col_rel_width") is None) or len(h["text"]) == ndisp for h in headers)
+
+
+def gen_sharing_section(rng, sec, oi, owner, long=False):
+    """a section that lists the body OBJECT of the earlier section `oi`: its frame has its own column count and key
+    positions whenever the shared body leaves that open (no col_rel_width, or a one-element one that is broadcast);
+    a body with one width per column can only be shared by sections of the same shape"""
+    body = owner["body"]
+    keys = list(dict.fromkeys((body.get("subline_by") or []) + (body.get("page_by") or [])))
+    uw = body.get("col_rel_width")
+    nrows = rng.randint(9, 16) if long else rng.randint(1, 7)
+    if uw is None or len(uw) == 1:
+        r = rng.random()
+        pool = [n for n in [1, 2, 2, 3, 3, 4, 4, 5, 6, 7, 8, 10, 12] if n >= len(keys) + (1 if keys else 0)]
+        if r < 0.2:
+            ncol = len(owner["cols"])
+        elif r < 0.6:       # fewer columns than the owner where that is possible
+            fewer = [n for n in pool if n < len(owner["cols"])]
+            ncol = rng.choice(fewer or pool)
+        else:
+            ncol = rng.choice(pool)
+        key_pos = rng.sample(range(ncol), len(keys))
+    else:
+        ncol = len(owner["cols"])
+        key_pos = [owner["cols"].index(k) for k in keys]
+    cols = [f"S{sec}C{j}" for j in range(ncol)]
+    for k, j in zip(keys, key_pos):
+        cols[j] = k                                  # the names the shared body refers to
+    keyvals = {}
+    for lvl, j in enumerate(key_pos):
+        keyvals[j] = docgen.run_keys(rng, nrows, [f"S{sec}KEY{lvl}{x}" for x in "abcd"], 1, 3)
+    rows = [[keyvals[j][i] if j in keyvals else f"s{sec}r{i}c{j}" for j in range(ncol)] for i in range(nrows)]
+    removed = removed_names(body)
+    keep = [c not in removed for c in cols]
+    hmode, headers = gen_headers(rng, sec, sum(keep))
+    return dict(cols=cols, rows=rows, body=dict(body), headers=headers, keep=keep, mode=owner["mode"],
+                wmode=owner["wmode"], hmode=hmode, body_of=oi)
+
+
+def gen_shared_doc(rng, tier):
+    """a multi-section document in which sections list the same body / header objects"""
+    d = gen_doc(rng, tier)
+    nsec = rng.choice([2, 2, 2, 3, 3, 4])
+    long = rng.random() < 0.25
+    if long:
+        d["page"]["nrow"] = rng.randint(5, 8)
+    secs = []
+    for j in range(nsec):
+        if j and rng.random() < 0.7:
+            oi = body_root(secs, rng.randrange(j))
+            secs.append(gen_sharing_section(rng, j, oi, secs[oi], long=long))
+        else:
+            sec = gen_section(rng, j, tier, long=long)
+            if rng.random() < 0.45:
+                # leave the shape open to the sections that will list this body: no widths, or one that is broadcast
+                sec["body"].pop("col_rel_width", None)
+                sec["wmode"] = "none"
+                if rng.random() < 0.4:
+                    sec["body"]["col_rel_width"] = [gen_width(rng, rng.choice(["int", "dec1", "float"]))]
+                    sec["wmode"] = "single"
+            secs.append(sec)
+    if not any(s.get("body_of") is not None for s in secs):
+        secs[-1] = gen_sharing_section(rng, nsec - 1, body_root(secs, 0), secs[body_root(secs, 0)], long=long)
+    d["multi"], d["sections"] = True, secs
+    d["header_format"] = rng.choice(["nested", "nested", "nested", "flat", "omitted"])
+    if d["header_format"] == "nested":
+        for j in range(1, nsec):
+            if rng.random() < 0.5:
+                oi = headers_root(secs, rng.randrange(j))
+                if headers_fit(secs[oi]["headers"], sum(secs[j]["keep"])):
+                    if secs[oi]["headers"] == "default":
+                        secs[oi]["headers"] = [dict()]   # a real object: RTFColumnHeader() listed for both sections
+                    secs[j]["headers_of"] = oi
+                    secs[j]["headers"] = secs[oi]["headers"]
+                    secs[j]["hmode"] = secs[oi]["hmode"]
+    if d["history"] is not None or rng.random() < 0.3:
+        d["history"] = dict(ncols=[rng.randint(1, 12) for _ in range(nsec)], encode_first=rng.random() < 0.7,
+                            reuse=rng.choice([["body"], ["headers"], ["body", "headers"]]))
+    return d
+
+
 # ------------------------------------------------------------------ observation level: expectation
 
 def table_width(page):
@@ -373,6 +510,7 @@ def section_headers_effective(case, si):
         hs = case["sections"][0]["headers"]
         hs = [dict()] if hs == "default" else hs
         return hs if si == 0 else []
+    sec = case["sections"][headers_root(case["sections"], si)]     # the objects listed may be an earlier section's
     return [dict()] if sec["headers"] == "default" else sec["headers"]
 
 
@@ -381,7 +519,7 @@ def expect_section(case, si):
     keep = sec["keep"]
     ncol = len(sec["cols"])
     ndisp = sum(keep)
-    uw = sec["body"].get("col_rel_width")
+    uw = body_cfg(case, si).get("col_rel_width")
     hs = []
     for h in section_headers_effective(case, si):
         text = h.get("text")
@@ -412,13 +550,26 @@ def _mk_headers(rtf, hs):
 
 
 def build_doc(case):
-    """public API only; with `history`, the body/header objects are first used by an earlier document"""
+    return build_doc_ex(case)[0]
+
+
+def build_doc_ex(case):
+    """public API only; with `history`, the body/header objects are first used by an earlier document; with `body_of` /
+    `headers_of`, one object is listed for several sections.  → (document, the caller's body object of every section)"""
     import polars as pl
     import rtflite as rtf
 
     secs = case["sections"]
-    bodies = [rtf.RTFBody(**{k: v for k, v in s["body"].items()}) for s in secs]
-    header_objs = [None if s["headers"] == "default" else _mk_headers(rtf, s["headers"]) for s in secs]
+    nested = case["multi"] and case["header_format"] == "nested"
+    bodies, header_objs = [], []
+    for si, s in enumerate(secs):
+        bo = s.get("body_of")
+        bodies.append(bodies[body_root(secs, si)] if bo is not None
+                      else rtf.RTFBody(**{k: v for k, v in s["body"].items()}))
+        if nested and s.get("headers_of") is not None:
+            header_objs.append(header_objs[headers_root(secs, si)])
+        else:
+            header_objs.append(None if s["headers"] == "default" else _mk_headers(rtf, s["headers"]))
     frames = [docgen.make_frame(dict(cols=s["cols"], rows=s["rows"])) for s in secs]
     kw = {}
     if case["page"]:
@@ -456,6 +607,8 @@ def build_doc(case):
             early_frames.append(pl.DataFrame({c: ["e0", "e1"] for c in names + extra}))
         e_bodies = bodies if "body" in hist["reuse"] else [rtf.RTFBody(**{k: v for k, v in s["body"].items()
                                                                            if k != "col_rel_width"}) for s in secs]
+        if "body" not in hist["reuse"]:
+            e_bodies = [e_bodies[body_root(secs, si)] for si in range(len(secs))]
         e_headers = header_objs if "headers" in hist["reuse"] else [None for _ in secs]
         try:
             early = rtf.RTFDocument(**doc_kwargs(early_frames, e_bodies, e_headers))
@@ -463,7 +616,7 @@ def build_doc(case):
                 early.rtf_encode()
         except Exception:  # noqa: BLE001 — the earlier document may itself be ill-shaped; only its side effects matter
             pass
-    return rtf.RTFDocument(**doc_kwargs(frames, bodies, header_objs))
+    return rtf.RTFDocument(**doc_kwargs(frames, bodies, header_objs)), bodies
 
 
 _DATA = re.compile(r"^s(\d+)r(\d+)c(\d+)$")
@@ -483,7 +636,9 @@ def classify(texts):
         return int(m.group(1)), "header", int(m.group(2))
     m = _AUTO.match(t0)
     if m:
-        return int(m.group(1)), "autoheader", None
+        # column names: a key column of a shared body carries the name the (earlier) owner section gave it
+        tags = [int(q.group(1)) for q in (_AUTO.match(t.strip()) for t in texts) if q]
+        return max(tags), "autoheader", None
     m = _KEY.match(t0)
     if m:
         # a key value: spanning row (one cell) or a data row whose first displayed column is a kept key column
@@ -497,15 +652,34 @@ def classify(texts):
     return None, "other", None
 
 
+def header_groups(case):
+    """{section whose header objects are listed elsewhere: all sections that list them}"""
+    if not (case["multi"] and case["header_format"] == "nested"):
+        return {}
+    g = {}
+    for si, s in enumerate(case["sections"]):
+        if s.get("headers_of") is not None:
+            root = headers_root(case["sections"], si)
+            g.setdefault(root, {root}).add(si)
+    return g
+
+
 def _doc_worker(case):
     import contextlib
     import io
 
     try:
         with contextlib.redirect_stdout(io.StringIO()):
-            doc = build_doc(case)
+            doc, caller_bodies = build_doc_ex(case)
     except Exception as e:  # noqa: BLE001
         return dict(status="construct-error", exc=docgen.classify_exc(e), msg=str(e)[:300])
+
+    def wl(b):
+        w = getattr(b, "col_rel_width", None)
+        return None if w is None else [fs(x) for x in w]
+
+    held = doc.rtf_body if isinstance(doc.rtf_body, list) else [doc.rtf_body]
+    constructed = dict(held=[wl(b) for b in held])
     try:
         with contextlib.redirect_stdout(io.StringIO()):
             s = doc.rtf_encode()
@@ -516,19 +690,30 @@ def _doc_worker(case):
     except rtfread.RtfError as e:
         return dict(status="unreadable", msg=str(e))
     rows = []
-    cur = 0  # rows without a section tag (footnote/source/other) belong to the section rendered last
     for page in rd.pages:
         for b in page.blocks:
             if b.kind != "row":
                 continue
             texts = [rtfread.para_text(c) for c in b.cells]
             sec, kind, hidx = classify(texts)
-            if sec is None:
-                sec = cur
-            cur = sec
             rows.append(dict(sec=sec, kind=kind, hidx=hidx, cellx=[d.cellx for d in b.defs], ncells=len(b.cells),
                              text0=(texts[0] if texts else "")[:24]))
-    return dict(status="ok", rows=rows)
+    # header OBJECTS listed for several sections carry one text: such a row stands in the section of the rows it labels
+    # (the next frame-tagged row), when that section lists the objects; otherwise in the section its text names
+    groups = header_groups(case)
+    for i, r in enumerate(rows):
+        if r["kind"] == "header" and r["sec"] in groups:
+            nxt = next((q["sec"] for q in rows[i + 1:] if q["kind"] in ("data", "span_or_data", "autoheader")), None)
+            if nxt in groups[r["sec"]]:
+                r["sec"] = nxt
+    cur = 0  # rows without a section tag (footnote/source/other) belong to the section rendered last
+    for r in rows:
+        if r["sec"] is None:
+            r["sec"] = cur
+        cur = r["sec"]
+    # the caller's body objects after construction and encoding (never written: C08_sections_shared, C08_history)
+    constructed["caller_after"] = [wl(b) for b in caller_bodies]
+    return dict(status="ok", rows=rows, constructed=constructed)
 
 
 # ------------------------------------------------------------------ observation level: judge
@@ -546,7 +731,7 @@ def resolve_kinds(case, si, exp, rows):
     first_disp_is_key = False
     if ndisp == 1:
         j = exp["keep"].index(True)
-        first_disp_is_key = sec["cols"][j] in (sec["body"].get("page_by") or [])
+        first_disp_is_key = sec["cols"][j] in (body_cfg(case, si).get("page_by") or [])
     out = []
     for r in rows:
         k = r["kind"]
@@ -567,8 +752,51 @@ def resolve_kinds(case, si, exp, rows):
     return out
 
 
+def construct_request(case):
+    """the construction as the model sees it: the distinct body objects and, per section, (its object, its column count)"""
+    secs = case["sections"]
+    roots = sorted({body_root(secs, si) for si in range(len(secs))})
+    objs = []
+    for r in roots:
+        uw = secs[r]["body"].get("col_rel_width")
+        objs.append(None if uw is None else [fs(x) for x in uw])
+    return dict(op="c08_construct_sections", objs=objs,
+                secs=[[roots.index(body_root(secs, si)), len(s["cols"])] for si, s in enumerate(secs)])
+
+
+def judge_construct(res, case, ob, rq, d):
+    """model of RTFDocument.__init__'s width resolution vs the widths the real document holds, section by section"""
+    con = ob.get("constructed")
+    if not con:
+        return
+    def q(v):
+        return None if v is None else [parse_frac(x) for x in v]
+
+    def shares(v):
+        """the property speaks of proportions: a vector is compared up to a positive factor"""
+        if v is None or not v or sum(v) == 0:
+            return v
+        t = sum(v)
+        return [x / t for x in v]
+    held, model = [q(v) for v in con["held"]], [q(v) for v in d["widths"]]
+    if [shares(v) for v in held] != [shares(v) for v in model]:
+        j = next((i for i, (a, b) in enumerate(zip(held, model)) if shares(a) != shares(b)), None)
+        res.disagree(case, f"construction: section {j} of the document holds col_rel_width "
+                           f"{None if j is None or held[j] is None else [float(x) for x in held[j]]}, the model resolves "
+                           f"{None if j is None else [float(x) for x in model[j]]} (body objects {rq['objs']}, "
+                           f"sections (object, columns) {rq['secs']})")
+        return
+    after = [q(con["caller_after"][si]) for si in sorted({body_root(case["sections"], si)
+                                                          for si in range(len(case["sections"]))})]
+    if after != [q(v) for v in d["objs_after"]]:
+        # not a clause of C08 by itself (C14 owns writes into caller-owned objects); what it does to the widths of the
+        # sections / documents that use the object next is judged on their rows.  Recorded in the evidence.
+        res.count("caller_body_object_written")
+
+
 def judge_doc(res, case, ob, exps, drvs):
-    """exps/drvs: per section expectation and driver answer"""
+    """exps/drvs: per section expectation and driver answer (+ the construction request's answer last)"""
+    drvs, cons = drvs[:len(exps)], drvs[len(exps):]
     if ob["status"] != "ok":
         if any("rows" in d for d in drvs):
             why = f"document in C08's domain was not rendered: {ob}"
@@ -636,6 +864,8 @@ def judge_doc(res, case, ob, exps, drvs):
         if want_hdr != got_hdr:
             res.disagree(case, f"section {si}: header rows observed {sorted(got_hdr)} != expected {sorted(want_hdr)}")
             return
+    if cons:
+        judge_construct(res, case, ob, construct_request(case), cons[0])
 
 
 def doc_requests(case, ob):
@@ -649,6 +879,7 @@ def doc_requests(case, ob):
             # the oracle has no "other" kind: unclassified rows are judged for the right edge like a footnote row
             rq["observed"] = [[kind_json(k if k != ["other"] else ["foot"]), r["cellx"]] for r, k in zip(rows, kinds)]
         reqs.append(rq)
+    reqs.append(construct_request(case))
     return exps, reqs
 
 
@@ -665,12 +896,44 @@ def nontrivial_key(case, ob):
     if not ok:
         return None
     return ("d", tuple((len(s["keep"]), tuple(s["keep"]), s["hmode"], tuple(s["body"].get("col_rel_width") or ()))
-                       for s in secs), table_width(case["page"]), case["header_format"], bool(case.get("history")))
+                       for s in secs), table_width(case["page"]), case["header_format"], bool(case.get("history")),
+            tuple((s.get("body_of"), s.get("headers_of")) for s in secs))
 
 
 def strip_case(case):
     """the replayable part of a case"""
     return {k: case[k] for k in ("level", "multi", "sections", "page", "footnote", "source", "header_format", "history")}
+
+
+def shared_labels(case):
+    """evidence labels of the sharing pattern of a document"""
+    secs = case["sections"]
+    out = []
+    by_root = {}
+    for si in range(len(secs)):
+        by_root.setdefault(body_root(secs, si), []).append(si)
+    for root, members in by_root.items():
+        if len(members) < 2:
+            continue
+        ncols = [len(secs[m]["cols"]) for m in members]
+        out.append(f"shared_body_sections:{len(members)}")
+        out.append("shared_body_wmode:" + secs[root]["wmode"])
+        out.append("shared_body_mode:" + secs[root]["mode"])
+        if len(set(ncols)) == 1:
+            out.append("shared_body_ncols:equal")
+        else:
+            if any(b < a for a, b in zip(ncols, ncols[1:])):
+                out.append("shared_body_ncols:later_fewer")
+            if any(b > a for a, b in zip(ncols, ncols[1:])):
+                out.append("shared_body_ncols:later_more")
+    for root, members in header_groups(case).items():
+        out.append(f"shared_headers_sections:{len(members)}")
+        out.append("shared_headers_hmode:" + secs[root]["hmode"])
+        nd = {sum(secs[m]["keep"]) for m in members}
+        out.append("shared_headers_ndisp:" + ("equal" if len(nd) == 1 else "different"))
+    if out and case.get("history"):
+        out.append("shared_and_history:" + "+".join(case["history"]["reuse"]))
+    return out
 
 
 CORPUS_D9 = dict(
@@ -687,6 +950,16 @@ CORPUS_HISTORY = dict(
                    wmode="none", hmode="explicit_nowidth")])
 
 
+CORPUS_SHARED = dict(   # one width-less body and one RTFColumnHeader() listed for a 4-column and a 2-column section
+    level="doc", multi=True, page={}, footnote=dict(text="FOOTNOTE-TXT"), source=None, header_format="nested",
+    history=None,
+    sections=[dict(cols=["S0C0", "S0C1", "S0C2", "S0C3"], rows=[[f"s0r{i}c{j}" for j in range(4)] for i in range(2)],
+                   body=dict(), headers=[dict()], keep=[True] * 4, mode="plain", wmode="none", hmode="default"),
+              dict(cols=["S1C0", "S1C1"], rows=[[f"s1r{i}c{j}" for j in range(2)] for i in range(2)],
+                   body=dict(), headers=[dict()], keep=[True] * 2, mode="plain", wmode="none", hmode="default",
+                   body_of=0, headers_of=0)])
+
+
 def run_docs(res, tier):
     ndocs = 500 if tier == "quick" else 6000
     cases = [CORPUS_D9, CORPUS_HISTORY]
@@ -695,6 +968,9 @@ def run_docs(res, tier):
         cases.append(json.loads(f.read_text()))
     for k in range(ndocs):
         cases.append(gen_doc(sub_rng(res.seed, "c08doc", k), tier))
+    cases.append(CORPUS_SHARED)
+    for k in range(160 if tier == "quick" else 2000):
+        cases.append(gen_shared_doc(sub_rng(res.seed, "c08shared", k), tier))
     obs = common.pool_map(_doc_worker, cases, chunksize=4)
     all_reqs, spans = [], []
     exps_all = []
@@ -719,6 +995,8 @@ def run_docs(res, tier):
             res.count(f"sec_removed:{len(s['keep']) - sum(s['keep'])}")
         if c.get("history"):
             res.count("doc_history:" + "+".join(c["history"]["reuse"]))
+        for lab in shared_labels(c):
+            res.count(lab)
         if o["status"] == "ok":
             for r in o["rows"]:
                 res.count("row_kind:" + r["kind"])
@@ -738,7 +1016,11 @@ def run(res: common.Result, build) -> int:
                     "C08_positive, C08_spanning_row, C08_footnote_row, C08_header_inherited_aligns (inherited header = "
                     "data rows after page_by/subline_by removal, for every body vector and mask), C08_section (every row "
                     "kind of a well-formed section ends at twip W and the oracle checkRows accepts the model's rows), "
-                    "C08_history (widths independent of earlier uses of the configuration objects). "
+                    "C08_history (widths independent of earlier uses of the configuration objects), "
+                    "C08_sections_shared / C08_section_widths_own / C08_sections_shared_rows (one body object listed for "
+                    "several sections of a document: every section's widths come from its own column count, the object "
+                    "is not written, every row kind of every such section ends at twip W; C08_sections_memo_witness: "
+                    "resolving once per distinct object would not). "
                     "C08_unrepaired_header_witness / C08_history_old_witness record what the code did before the "
                     "repairs (D9, and the write-back removed in 6e822b0).")
 
@@ -765,7 +1047,7 @@ def replay(payload) -> int:
                 print(f"  section {r['sec']} {r['kind']:<12} {r['text0']:<14} cellx {r['cellx']}")
         else:
             print("observation:", o)
-        for si, d in enumerate(drvs):
+        for si, d in enumerate(drvs[:len(exps)]):
             print(f"section {si}: model rows {d.get('rows', d.get('model_error'))}")
             print(f"section {si}: violated clauses {d.get('viol')}")
         judge_doc(tmp, case, o, exps, drvs)
